@@ -142,8 +142,9 @@ func TestVfC19Prefetch(t *testing.T) {
 	pip := block + "10"
 	cfg := &Config{Servers: StdServers(pip, []string{"udp"}, ""), Upstreams: []UpstreamCfg{{Tag: "up", Addr: up.Addr()}, {Tag: "uptcp", Addr: upTCP.Addr()}},
 		DomainSets: []DomainSet{{Tag: "viatcp", Files: []string{"$DIR/viatcp.txt"}}},
-		Rules:      []Rule{{Domain: "viatcp", Forward: "uptcp"}, {Forward: "up"}},
-		Cache:      &CacheCfg{MemSize: 64 << 20, IpMarker: "$DIR/marker.txt"}, ECS: &ECSCfg{Enabled: true}}
+		// (routing through a reversed rule: names outside the set go to "up", the ones inside fall through to "uptcp")
+		Rules: []Rule{{Domain: "viatcp", Reverse: true, Forward: "up"}, {Forward: "uptcp"}},
+		Cache: &CacheCfg{MemSize: 64 << 20, IpMarker: "$DIR/marker.txt"}, ECS: &ECSCfg{Enabled: true}}
 	p, err := StartProxy(cfg.YAML(), map[string]string{"marker.txt": c07Marker, "viatcp.txt": "prefetchtcp.test\n"}, ProxyOpts{})
 	if err != nil {
 		t.Fatal(err)
